@@ -7,6 +7,7 @@ import Vuego.Driver.LayoutOp
 import Vuego.Driver.CacheOp
 import Vuego.Driver.MergeOp
 import Vuego.Driver.FmtOp
+import Vuego.Driver.MdOp
 namespace Vuego.Driver
 open Lean
 
@@ -25,6 +26,8 @@ def handle (j : Json) : Json :=
   | "cache" => cacheOp j
   | "merge" => mergeOp j
   | "fmt" => fmtOp j
+  | "md" => mdOp j
+  | "headingid" => headingIdOp j
   | _ => O [("error", Json.str "bad-op")]
 
 def handleLine (line : String) : String :=
